@@ -23,6 +23,8 @@ pub enum Entry {
     ExecCapture,      // Exec::capture
     ExecCommunicate,  // Exec::communicate + read chain
     ReadString,       // communicate_start + read_string
+    PipelineCapture,  // (scripted child | pass-through stage).capture()
+    PipelineCommunicate, // (scripted child | pass-through stage).communicate() + read chain
 }
 
 #[derive(Clone, Debug)]
@@ -176,6 +178,57 @@ pub fn exchange(ctx: &mut Ctx, cfg: &Xcfg) -> Xres {
         }
     };
     match cfg.entry {
+        Entry::PipelineCapture | Entry::PipelineCommunicate => {
+            // stage 1 copies its input verbatim (a=1, b=0) and appends the trailer [1:len:hash]
+            let e0 = Exec::cmd(&argv[0]).args(&argv[1..]);
+            let e1 = Exec::cmd(&argv[0]).args(&["stage", "1", "1", "0", "0", "0", "0"]).arg(dir.join("stage1.rep"));
+            let mut pl = e0 | e1;
+            if let Some(i) = &cfg.input {
+                pl = pl.stdin(i.clone());
+            }
+            arm_io_rules(&mut short_rules);
+            if cfg.entry == Entry::PipelineCapture {
+                let m = run::monitored(|| pl.capture());
+                res.cert = m.cert.clone();
+                res.panic = m.panic.clone();
+                res.hard_timeout = m.hard_timeout;
+                match m.result {
+                    Some(Ok(c)) => {
+                        res.exit = Some(c.exit_status);
+                        res.reads.push(ReadRes { ok: true, err_kind: None, errno: None, out: Some(c.stdout.clone()), err: Some(c.stderr.clone()), out_str: None, err_str: None, ev_start: m.ev_start, ev_end: m.ev_end, t0: m.t0_vt, t1: m.t1_vt, limit: none.clone(), polls_after_deadline: 0 });
+                    }
+                    Some(Err(e)) => {
+                        let (kind, errno) = match &e {
+                            subprocess::PopenError::IoError(io) => (Some(io.kind()), io.raw_os_error()),
+                            _ => (None, None),
+                        };
+                        res.reads.push(ReadRes { ok: false, err_kind: kind, errno, out: None, err: None, out_str: None, err_str: None, ev_start: m.ev_start, ev_end: m.ev_end, t0: m.t0_vt, t1: m.t1_vt, limit: none.clone(), polls_after_deadline: 0 });
+                    }
+                    None => {}
+                }
+            } else {
+                let m0 = run::monitored(|| pl.communicate());
+                match m0.result {
+                    Some(Ok(mut comm)) => {
+                        for lim in &chain {
+                            if let Some(s) = lim.size {
+                                comm = comm.limit_size(s);
+                            }
+                            if let Some(t) = lim.time {
+                                comm = comm.limit_time(t);
+                            }
+                            let stop = run_read(&mut res, cfg, lim, |_| {}, &mut || comm.read());
+                            if stop {
+                                break;
+                            }
+                        }
+                        drop(comm);
+                    }
+                    Some(Err(e)) => res.launch_error = Some(e.to_string()),
+                    None => res.panic = m0.panic,
+                }
+            }
+        }
         Entry::ExecCapture | Entry::ExecCommunicate => {
             let mut e = Exec::cmd(&argv[0]).args(&argv[1..]);
             if let Some(i) = &cfg.input {
@@ -568,6 +621,10 @@ pub fn spin_check(evs: &[Ev]) -> Option<String> {
         }
         match e.kind {
             k::POLL => ops += 1,
+            // a descriptor number that is closed and handed out again is a new stream
+            k::CLOSE => {
+                eofs.remove(&e.a[0]);
+            }
             k::READ | k::WRITE => {
                 ops += 1;
                 if e.ret > 0 {
